@@ -55,7 +55,8 @@ def hlOfString (s : String) : Hostlist :=
    singles, `lo < 14`, length ≤ 6, widths 1-3) gave agreement on all 20000 (25 of them abort in both, none `.fuel`).
    The bound of `coalesce` was then `(size+2)²`; that is NOT always enough (10 copies of `n[1-30]` need 109364 iterations
    of the outer loop against a bound of 97344, and the old silent fuel of 100000 was exceeded as well, by 20 copies of
-   `n[1-20]`: 458779 iterations), so it is now `(size+2)⁴` — see `coalesceFuel`.
+   `n[1-20]`: 458779 iterations), so it is now `(size+2)⁴` — see `coalesceFuel`; that bound is proved sufficient for every
+   well-formed list in `Pm/SortFuel.lean` (`sortHL_ne_fuel`).
    The differential harness compares `sortHL` with the C function on every run. -/
 
 /-- the `…F` version evaluates in the kernel -/
